@@ -1122,6 +1122,52 @@ def validate_dispersive_divisor_stability(
         warnings.warn(detail, UserWarning, stacklevel=2)
 
 
+def _courant_limit_sq(mat: Material, dt: float) -> tuple[float, int]:
+    """``mu * lambda_min(eps_inf - sum_p (c3_p - c4_p) / (1 + c1_p - c2_p))`` of a dispersive material and its worst axis."""
+    assert mat.dispersion is not None
+    c1, c2, c3, c4 = compute_pole_coefficients_tensor(mat.dispersion.poles, dt)
+    denom = np.repeat(1.0 + c1 - c2, 3, axis=1)  # coupling entry (i, j) uses the oscillator of row i
+    load = np.where(denom > 0.0, (c3 - c4) / np.where(denom > 0.0, denom, 1.0), 0.0).sum(axis=0).reshape(3, 3)
+    reduced = np.asarray(mat.permittivity, dtype=np.float64).reshape(3, 3) - load
+    mu_min = min(mat.permeability[0], mat.permeability[4], mat.permeability[8])
+    return float(np.linalg.eigvalsh(0.5 * (reduced + reduced.T))[0]) * mu_min, int(np.argmin(np.diag(reduced)))
+
+
+def validate_dispersive_courant_stability(
+    materials: dict[str, Material],
+    dt: float,
+    courant_factor: float,
+) -> None:
+    r"""Warn when dispersive poles lower the Courant limit below ``courant_factor``.
+
+    The explicit ADE update couples ``E`` to the pole polarizations. On the grid's Nyquist mode
+    (amplification factor ``z = -1``) the coupled scheme is stable only if
+    ``courant_factor**2 <= mu * (eps_inf - sum_p (c3_p - c4_p) / (1 + c1_p - c2_p))``; for Lorentz and
+    Drude poles the sum is ``sum_p K_p dt**2 / (4 - omega_0p**2 dt**2)``. Above it the fields grow
+    exponentially, even for mild media at the default ``courant_factor`` when ``eps_inf`` is close to 1.
+    """
+    for name, mat in materials.items():
+        if mat.dispersion is None or mat.dispersion.num_poles == 0:
+            continue
+        limit_sq, worst_ax = _courant_limit_sq(mat, dt)
+        if courant_factor**2 <= limit_sq:
+            continue
+        scale = 1.0  # dt is proportional to courant_factor: scan down in 1 % steps to a safe value
+        for _ in range(1000):
+            scale *= 0.99
+            if (scale * courant_factor) ** 2 <= _courant_limit_sq(mat, scale * dt)[0]:
+                break
+        axis_note = f" on axis {'xyz'[worst_ax]}" if not (mat.is_all_isotropic and mat.dispersion.is_isotropic) else ""
+        warnings.warn(
+            f"Dispersive material '{name}' lowers the Courant stability limit{axis_note}: courant_factor**2 = "
+            f"{courant_factor**2:.4g} exceeds mu * (eps_inf - sum_p (c3 - c4) / (1 + c1 - c2)) = {limit_sq:.4g}, so the "
+            "coupled field/polarization (ADE) update is unstable and the fields grow exponentially. Lower "
+            f"courant_factor to <= {scale * courant_factor:.3g} (currently {courant_factor:.3g}).",
+            UserWarning,
+            stacklevel=2,
+        )
+
+
 def compute_ordered_names(
     materials: dict[str, Material],
 ) -> list[str]:
